@@ -3,7 +3,7 @@ import ast
 
 from ..core import Mutant, norm
 from ..httpx import HS
-from ..absint import Interp, RETURN
+from ..absint import Interp, RETURN, Domain, NORMAL
 from ..deps import DepDomain, fs
 from ..linear import linform, same, show
 from ..astutil import method_call, unparse, parent, in_subtree, is_self_call
@@ -187,6 +187,99 @@ def check(run):
     run.ob("C18.R4", "%s:content-length-turns-chunking-off" % start.fq, bool(off), run.site(start),
            "" if off else "start() must record Content-Length and turn chunking off when the application supplies it")
     run.floor("C18.R4", 2)
+    message_state_checks(run)
+
+
+class _AssignedDomain(Domain):
+    """state = (assigned persisted?, frozenset of excluded versions)"""
+
+    def initial(self):
+        return (False, frozenset())
+
+    def on_store(self, target, value, state, stmt):
+        if dotted(target) == "self.persisted" and isinstance(value, ast.Constant) and isinstance(value.value, bool):
+            return (True, state[1])
+        return state
+
+    def assume(self, test, truth, state):
+        if isinstance(test, ast.Compare) and dotted(test.left) == "self.version" and isinstance(test.ops[0], ast.Eq):
+            v = unparse(test.comparators[0])
+            if truth:
+                if v in state[1]:
+                    return None
+                return (state[0], state[1] | {("only", v)})
+            excl = state[1] | {v}
+            if {"(1, 0)", "(1, 1)"} <= excl:
+                return None          # parseHead stores only these two versions
+            return (state[0], excl)
+        return super().assume(test, truth, state)
+
+
+class _FreshDomain(Domain):
+    """state = frozenset of self.<attr> containers (re)initialised on this path"""
+
+    def __init__(self):
+        self.bad = {}
+
+    def initial(self):
+        return frozenset()
+
+    def on_store(self, target, value, state, stmt):
+        d = dotted(target)
+        if d and d.startswith("self.") and d.count(".") == 1:
+            return state | {d}
+        return state
+
+    def on_delete(self, target, state, stmt):
+        if isinstance(target, ast.Subscript) and isinstance(target.slice, ast.Slice) and target.slice.lower is None and target.slice.upper is None:
+            d = dotted(target.value)
+            if d:
+                return state | {d}
+        return state
+
+    def on_event(self, node, state):
+        if isinstance(node, ast.Call):
+            mc = method_call(node)
+            if mc and mc[0] and mc[0].startswith("self.") and mc[0].count(".") == 1:
+                if mc[1] == "clear":
+                    state = state | {mc[0]}
+                elif mc[1] in ("update", "extend", "append", "add", "setdefault", "appendleft", "extendleft") and mc[0] not in state:
+                    self.bad.setdefault(mc[0], node)
+        yield state, NORMAL
+
+
+def message_state_checks(run):
+    """R5/R6: per-message parser state does not leak from the previous pipelined message."""
+    from ..httpx import HC, HT
+    ix = run.ix
+    for mod, cname in ((HS, "Requestant"), (HC, "Respondent")):
+        cls = ix.cls(mod, cname)
+        cp = ix.method(cls, "checkPersisted")
+        res = Interp(_AssignedDomain(), run.lat).run(cp.node)
+        run.paths += len(res)
+        bad = [tr for (st, oc), tr in res.items() if oc == RETURN and not st[0]]
+        run.ob("C18.R5", "%s:persisted-definitely-assigned" % cp.fq, not bad, run.site(cp),
+               "" if not bad else "%s.checkPersisted can return without assigning self.persisted: the request inherits the persistence of the "
+               "previous message parsed on this connection (a plain HTTP/1.0 request after a keep-alive one is never closed)" % cname, bad[0] if bad else None)
+        for meth in ("parseHead", "parseBody"):
+            f = ix.method(cls, meth)
+            dom = _FreshDomain()
+            res = Interp(dom, run.lat).run(f.node)
+            run.paths += len(res)
+            filled = set()
+            for n in walk_local(f.node):
+                if isinstance(n, ast.Call):
+                    mc = method_call(n)
+                    if mc and mc[0] and mc[0].startswith("self.") and mc[0].count(".") == 1 and mc[1] in ("update", "extend", "append", "add"):
+                        filled.add(mc[0])
+            for attr in sorted(filled):
+                node = dom.bad.get(attr)
+                ok = node is None
+                run.ob("C18.R6", "%s:%s-reset-before-filled" % (f.fq, attr), ok, run.site(f, node) if node is not None else run.site(f),
+                       "" if ok else "`%s` fills %s on a path on which this message has not (re)initialised it: on a kept-alive connection the "
+                       "container still holds the previous message's entries (stale headers / body bytes)" % (norm(node), attr))
+    run.floor("C18.R5", 2)
+    run.floor("C18.R6", 5)
 
 
 MUTANTS = [
@@ -201,5 +294,8 @@ MUTANTS = [
            "                requestant.makeParser()\n                if requestant.persisted:\n                    pass\n                else:", {"C18.R3"}, canary=True),
     Mutant("close-regardless-of-persisted", HS, "Server.serviceReps", "                else:  # not persistent so close and remove requestant and responder\n", "                if True:\n", {"C18.R3"}),
     Mutant("chunked-always", HS, "Responder.build", "if self.chunkable and ('transfer-encoding' not in self.headers or", "if True and ('transfer-encoding' not in self.headers or", {"C18.R4"}),
+    Mutant("http10-persisted-stale", HS, "Requestant.checkPersisted", "            self.persisted = False  # connections default to non-persisted\n", "            pass\n", {"C18.R5"}),
+    Mutant("headers-not-reset", HS, "Requestant.parseHead", "        self.headers = help.Hict()\n", "", {"C18.R6"}),
+    Mutant("body-not-cleared", HS, "Requestant.parseBody", "        del self.body[:]  # self.body.clear() clear body python2 bytearrays don't clear\n", "", {"C18.R6"}),
     Mutant("silent-reset-reordered", HS, "Responder.reset", "        self.started = False\n        self.headed = False\n", "        self.headed = False\n        self.started = False\n", silent=True),
 ]
